@@ -143,11 +143,13 @@ fn text_with_carats_and_line_count_buffer_and_line_numbers(
                 first_line_with_span = std::cmp::min(first_line_with_span, output_lines.len());
                 last_line_with_span = output_lines.len() + 1;
 
+                // The offsets are byte offsets, but we print one space or carat per
+                // character, so that carats line up with multi-byte characters.
                 let mut carats = String::new();
-                for _ in 0..start_of_carats {
+                for _ in 0..prefix.chars().count() {
                     carats.push(' ');
                 }
-                for _ in start_of_carats..end_of_carats {
+                for _ in 0..highlighted.chars().count() {
                     carats.push_str(&format!(
                         "{}",
                         if colorize_carats {
@@ -157,7 +159,7 @@ fn text_with_carats_and_line_count_buffer_and_line_numbers(
                         }
                     ));
                 }
-                for _ in end_of_carats..line_len {
+                for _ in 0..suffix.chars().count() {
                     carats.push(' ');
                 }
 
